@@ -54,7 +54,7 @@ OUT_OF_REACH = ['X.509 host certificates (no pyOpenSSL)']
 REQUIRED = ['trust_cases', 'accept_expected', 'reject_expected',
             'cert_cases', 'cert_boundary_cases', 'revoked_cases',
             'hashed_cases', 'port_cases', 'no_credentials_sent_checked',
-            'callback_cases',
+            'callback_cases', 'alias_cases', 'file_cases',
             'lie_cases']
 BUDGET_S = {'quick': 300, 'thorough': 3400}
 CASE_TIMEOUT_S = 60
@@ -251,7 +251,8 @@ def gen_cases(tier, seed):
                     'after': after, 'before': before, 'boundary': b,
                     'principals': rng.choice([[], [host], [host, 'x'],
                                               ['wrong.example'],
-                                              [addr]])}
+                                              [addr], ['dial.example'],
+                                              ['dial.example', addr]])}
         else:
             cred = {'kind': 'key', 'key': rng.randrange(4)}
 
@@ -291,6 +292,12 @@ def gen_cases(tier, seed):
         cases.append({'kind': 'trust', 'host': host, 'addr': addr,
                       'port': port, 'cred': cred, 'entries': entries,
                       'cb': cb,
+                      # the name that is dialled differs from the name trust
+                      # is looked up under (host_key_alias)
+                      'alias': rng.random() < 0.25,
+                      # how the trust data reaches connect()
+                      'kh_via': rng.choice(['arg', 'arg', 'arg', 'home_file',
+                                            'config_file', 'config_none']),
                       'chunk': rng.choice(['all', 'record', 'random']),
                       'cseed': rng.randrange(1 << 30)})
 
@@ -360,12 +367,17 @@ def _no_credentials(lt, viol, mon, what):
 
 
 def _run_trust(case, mon, viol):
+    import shutil
+    import tempfile
     pool = _pool()
     cred = case['cred']
     info = {}
     from asyncssh import public_key as PK
     saved = PK.time
     PK.time = _FakeTime()
+    tmpd = tempfile.mkdtemp(prefix='vf-c04-')
+    saved_home = os.environ.get('HOME')
+    os.environ['HOME'] = tmpd
 
     async def main(loop):
         key = pool[cred['key']]
@@ -391,6 +403,32 @@ def _run_trust(case, mon, viol):
                 text = _kh_text(case['entries'])
                 kh = asyncssh.import_known_hosts(text)
                 extra = {}
+                via = case.get('kh_via', 'arg')
+                dial = case['host']
+                if case.get('alias'):
+                    dial = 'dial.example'
+                    extra['host_key_alias'] = case['host']
+                    mon['alias_cases'] += 1
+                khargs = {'known_hosts': kh, 'config': None}
+                if via != 'arg':
+                    mon['file_cases'] += 1
+                    os.makedirs(os.path.join(tmpd, '.ssh'), exist_ok=True)
+                    if via == 'home_file':
+                        # nothing passed at all: $HOME/.ssh/known_hosts
+                        with open(os.path.join(tmpd, '.ssh', 'known_hosts'),
+                                  'w') as f:
+                            f.write(text)
+                        khargs = {'config': None}
+                    else:
+                        khf = os.path.join(tmpd, 'kh')
+                        with open(khf, 'w') as f:
+                            f.write(text)
+                        cfg = os.path.join(tmpd, 'cfg')
+                        with open(cfg, 'w') as f:
+                            f.write('UserKnownHostsFile ' +
+                                    (khf if via == 'config_file'
+                                     else 'none') + '\n')
+                        khargs = {'config': [cfg]}
                 cb = case.get('cb')
                 if cb:
                     from asyncssh.public_key import \
@@ -413,9 +451,9 @@ def _run_trust(case, mon, viol):
                         list(get_default_certificate_algs()) +
                         list(get_default_public_key_algs())]
                 ct = asyncio.ensure_future(asyncssh.connect(
-                    case['host'], case['port'], tunnel=env.wire,
-                    known_hosts=kh, username='user', client_keys=None,
-                    agent_path=None, config=None, **extra))
+                    dial, case['port'], tunnel=env.wire,
+                    username='user', client_keys=None,
+                    agent_path=None, **khargs, **extra))
                 env.san.harness_tasks.add(ct)
                 await env.settle()
                 if not ct.done():
@@ -431,6 +469,9 @@ def _run_trust(case, mon, viol):
                 mcred = dict(cred)
                 exp, why = model(case['entries'], case['host'], case['addr'],
                                  case['port'], mcred, case.get('cb'))
+                if via == 'config_none':
+                    # UserKnownHostsFile none: the documented opt-out
+                    exp, why = True, 'host key checking switched off'
                 if case.get('cb'):
                     mon['callback_cases'] += 1
                 info['model'] = (exp, why)
@@ -488,6 +529,11 @@ def _run_trust(case, mon, viol):
         scen.run(main)
     finally:
         PK.time = saved
+        if saved_home is None:
+            os.environ.pop('HOME', None)
+        else:
+            os.environ['HOME'] = saved_home
+        shutil.rmtree(tmpd, ignore_errors=True)
     return info
 
 
